@@ -282,6 +282,8 @@ inductive Op
   /-- a raw request the shim does not interpret (the test agent echoes it behind the byte 0xAA; a
       failure reply is the single byte 5) -/
   | forward (req : Bytes)
+  /-- `Close`: refused while locked, otherwise the connection to the underlying agent is closed -/
+  | close
 deriving Repr
 
 inductive Out
@@ -424,6 +426,11 @@ def step (s : State) (now : Nat) (f : Faults) : Op → State × Out
       | .none => (s, .forwarded (0xAA :: req))
       | .fail => (s, .forwarded [5])
       | .drop => ({ s with u := { s.u with closed := true } }, .err)
+  | .close =>
+    -- refused while locked; closing the connection a second time is an error
+    if s.locked then (s, .err)
+    else if s.u.closed then (s, .err)
+    else ({ s with u := { s.u with closed := true } }, .ok)
 
 /-- A sign request carrying signature flags (rsa-sha2-256 / rsa-sha2-512): the shim passes the
     flags through, so the request does to the state what the plain one does; the underlying agent
